@@ -1,4 +1,5 @@
 import Typegen.RunTheorems
+import Typegen.BuildPath
 import Typegen.Theorems.C08
 /-! # C14 — re-running with nothing changed rewrites nothing; --force always regenerates -/
 namespace TG.C14
@@ -66,5 +67,48 @@ theorem C14_rerun_noop_concrete (src : Pj.Project) (cfg : Gn.Config) (o : Out (K
     let o1 := (run TG.C08.concreteSys src cfg forced none o).2.2
     (exec TG.C08.concreteSys { src := src, cfg := cfg, out := o1 } (List.replicate n (.run false none))).out = o1 :=
   C14_rerun_noop_iter TG.C08.concreteSys src cfg o forced (TG.C08.concrete_namesDistinct src cfg) n
+
+/-! ## the build-script path -/
+
+/-- the clean-up after a cache hit removes nothing that is there: every name keeps its content, the record stays -/
+theorem C14_build_cleanup_noop_on_hit {Key Content : Type} [DecidableEq Key] (isGen : Name → Bool) (present : List Name)
+    (o : Out Key Content) (n : Name) :
+    (finalize isGen present (present.filter fun m => (o.files m).isSome) o).files n = o.files n ∧
+    (finalize isGen present (present.filter fun m => (o.files m).isSome) o).cache = o.cache := by
+  refine ⟨?_, finalize_cache _ _ _ _⟩
+  by_cases hv : n ∈ present.filter (fun m => isGen m && !((present.filter fun m => (o.files m).isSome).contains m))
+  · -- a victim is a listed name that does not exist: removing it changes nothing
+    have hcond := (List.mem_filter.mp hv).2
+    have hpres := (List.mem_filter.mp hv).1
+    simp only [Bool.and_eq_true, Bool.not_eq_true'] at hcond
+    have hnone : o.files n = none := by
+      cases hf : o.files n with
+      | none => rfl
+      | some c =>
+        have : (present.filter fun m => (o.files m).isSome).contains n = true := by
+          simp only [List.contains_iff_mem, List.mem_filter]
+          exact ⟨hpres, by simp [hf]⟩
+        rw [this] at hcond
+        exact absurd hcond.2 (by decide)
+    rw [hnone]
+    unfold finalize
+    exact removes_mem n _ o hv
+  · unfold finalize
+    exact removes_frame n _ o hv
+
+/-- **C14 on the build-script path**: after a complete successful run a second non-forced run with unchanged sources and
+    configuration is a cache hit, and run plus clean-up leave every name with the content it had, and the record as it was -/
+theorem C14_build_rerun_noop {Src Cfg Key Content : Type} [DecidableEq Key]
+    (S : Sys Src Cfg Key Content) (isGen : Name → Bool) (present : List Name) (src : Src) (cfg : Cfg) (o : Out Key Content)
+    (hup : upToDate S src cfg false o = true) (hne : S.empty src = false) (n : Name) :
+    (runBuild S isGen present src cfg false none o).2.1 = .upToDate ∧
+    (runBuild S isGen present src cfg false none o).2.2.files n = o.files n ∧
+    (runBuild S isGen present src cfg false none o).2.2.cache = o.cache := by
+  have hr : run S src cfg false none o = (.ok, .upToDate, o) := by
+    unfold run; simp [hne, hup]
+  unfold runBuild
+  simp only [hr, if_true, keptOf]
+  refine ⟨?_, (C14_build_cleanup_noop_on_hit isGen present o n).1, (C14_build_cleanup_noop_on_hit isGen present o n).2⟩
+  trivial
 
 end TG.C14
